@@ -98,8 +98,11 @@ fn write_once(mapping: &[u8]) -> Result<Vec<u8>, String> {
     guarded(|| cur::write_cache(mapping))
 }
 
-/// Seeded heap perturbation: leaked allocations of random sizes, so that later allocations land
-/// at different (but per-seed reproducible) addresses.
+/// Seeded heap perturbation. Leaked blocks of random sizes move where the heap grows; on top of
+/// that a population of small blocks is allocated and a seeded subset freed in seeded order, which
+/// leaves holes of assorted sizes: the allocator serves later requests from those holes, so the
+/// *relative* order of the addresses of later allocations (what pointer-keyed sorting or hashing
+/// would depend on) differs between seeds — reproducibly, since ASLR is off.
 fn perturb_heap(rng: &mut Rng) {
     let n = rng.range(0, 12);
     for _ in 0..n {
@@ -112,6 +115,25 @@ fn perturb_heap(rng: &mut Rng) {
         // keep the allocation observable so that the optimiser cannot elide it
         std::hint::black_box(v.as_mut_ptr());
         std::mem::forget(v);
+    }
+    let k = rng.range(0, 160) as usize;
+    let mut blocks: Vec<Option<Vec<u8>>> = (0..k)
+        .map(|_| {
+            let sz = *rng.pick(&[8usize, 16, 24, 32, 48, 64, 96, 128, 200, 320, 512, 1024]) + rng.usize_below(8);
+            let mut v = vec![0x5Au8; sz];
+            std::hint::black_box(v.as_mut_ptr());
+            Some(v)
+        })
+        .collect();
+    let mut order: Vec<usize> = (0..k).collect();
+    rng.shuffle(&mut order);
+    for i in order {
+        if rng.chance(2, 3) {
+            blocks[i] = None; // freed: a hole
+        }
+    }
+    for b in blocks.into_iter().flatten() {
+        std::mem::forget(b); // survivors stay where they are
     }
 }
 
